@@ -2,6 +2,7 @@ SPECIFICATION Spec
 CONSTANTS
   MaxLen = 3
   MaxOps = 2
+  WithDel = FALSE
   LowerBoundChecked = TRUE
 INVARIANT TypeOK
 INVARIANT Refines
